@@ -473,6 +473,32 @@ for _g in PLANS['C04']['groups']:
         _g['rounds'] = 400
 
 
+def need(*names):
+    """coverage floor: every named counter must be > 0, otherwise the run observed nothing of that kind and is inconclusive"""
+    def f(cov):
+        miss = [n for n in names if not cov['counters'].get(n)]
+        return ('never observed: ' + ', '.join(miss)) if miss else None
+    return f
+
+
+PLANS['C01']['floor'] = need('acquisitions_that_slept', 'trylock_ok', 'cvwait_timedout', 'muwait_timedout', 'waitn_ready', 'cvwait_cancelled')
+PLANS['C02']['floor'] = need('acquisitions_that_slept', 'trylock_failed', 'short_lived_threads', 'driver_acquisitions_that_slept')
+PLANS['C03']['floor'] = need('once_edges', 'note_edges', 'counter_edges', 'signal_edges', 'mutex_edges', 'child_note_edges')
+PLANS['C04']['floor'] = need('broadcast_rounds', 'signal_rounds', 'rounds_where_a_timeout_raced_the_wakeup', 'wakeups_issued_holding_the_mutex', 'reader_rule_checks', 'wait_n_waiters')
+PLANS['C05']['floor'] = need('cvwait_timedout', 'cvwait_cancelled', 'muwait_timedout', 'muwait_cancelled', 'waits_timedout')
+PLANS['C06']['floor'] = need('waits_that_slept', 'quiescence_checks', 'rounds_with_same_fn_diff_arg_neighbours', 'waits_with_condition_arg_eq', 'unlock_without_wakeup', 'reader_mode_waits')
+PLANS['C07']['floor'] = need('losers_that_slept', 'calls_on_done_once', 'nested_once_runs', 'rounds_with_shared_lock_slot')
+PLANS['C08']['floor'] = need('observations_notified', 'observations_not_notified', 'propagation_checks', 'untriggered_checks', 'cv_waits_cancelled')
+PLANS['C09']['floor'] = need('frees_by_workers', 'frees_of_notes_with_live_children', 'children_created_by_workers', 'propagation_checks')
+PLANS['C10']['floor'] = need('waits_that_slept', 'waits_timed_out', 'waits_started_after_zero', 'mixed_rounds')
+PLANS['C11']['floor'] = need('calls_that_slept', 'calls_with_5_objects_heap_path', 'calls_ready_at_entry', 'returned_count', 'calls_with_mutex')
+PLANS['C12']['floor'] = need('waits_that_slept', 'timeouts_at_or_after_deadline', 'handshake_rounds')
+PLANS['C13']['floor'] = need('objects_freed_by_last_user', 'final_acquisitions_that_slept', 'calls_with_5_objects_heap_path')
+PLANS['C15']['floor'] = need('expired_deadline_cases', 'near_future_cases', 'blocking_cases')
+PLANS['C16']['floor'] = need('debug_calls', 'quiescent_states_checked', 'truncated_cases', 'fitting_cases')
+PLANS['C19']['floor'] = need('note_new_null', 'counter_new_null', 'rounds_without_failure', 'null_seen_by_concurrent_thread')
+
+
 def expand(prop, tier, scale=1.0):
     spec = PLANS[prop]
     out = []
